@@ -322,5 +322,5 @@ def check(ctx, R):
     R.run("C17.c", rule_c, ctx)
     R.run("C17.d", rule_d, ctx)
     from . import preds
-    R.run("C17.p", lambda R, c: preds.rule(R, c, "C17.p", ["is_visible"]), ctx)
+    R.run("C17.p", lambda R, c: preds.rule(R, c, "C17.p", ["is_visible", "map_contains_key", "seen", "flags_check"]), ctx)
     return {}
